@@ -437,3 +437,38 @@ Definition vse_enc_sw (name : list N) (v : vse) (size : N) (kids : list ebox) : 
   do hd <- enc_header_sw name size;
   do rest <- enc_list enc_sw kids;
   Ok (hd ++ vse_fixed_sw v ++ rest).
+
+(* ------------------------------------------------------------------ the delegation pattern of the other reader-path decoders *)
+(* `data, err := readBoxBody(r, hdr); sr := bits.NewFixedSliceReader(data); return DecodeXxxSR(hdr, startPos, sr)`:
+   an SR decoder as a decision tree of FixedSliceReader operations (C04Model.rop / rstep), control flow free to depend on
+   every value read *)
+Inductive sprog (A : Type) : Type :=
+| SRet (a : A)                               (* return a, sr.AccError() *)
+| SFail                                      (* return nil, fmt.Errorf(...) *)
+| SOp (o : rop) (k : rval -> sprog A).
+Arguments SRet {A} a.
+Arguments SFail {A}.
+Arguments SOp {A} o k.
+
+Fixpoint run_sprog {A} (p : sprog A) (s : rstate) : res (A * rstate) :=
+  match p with
+  | SRet a => Ok (a, s)
+  | SFail => Err
+  | SOp o k => do (v, s1) <- rstep s o; run_sprog (k v) s1
+  end.
+
+(* operations whose effect depends only on the bytes from the current position on (no RemainingBytes, NrRemainingBytes,
+   SetPos, GetPos, Length, LookAhead, zero-terminated strings: those see the end or the origin of the slice) *)
+Definition local_op (o : rop) : bool :=
+  match o with
+  | RU8 | RU16 | RI16 | RU24 | RU32 | RI32 | RU64 | RI64 | RAccError => true
+  | RFixedStr n => ((0 <=? n) && (n <? 4611686018427387904))%Z     (* a count below 2^62: no int overflow of pos + n *)
+  | RBytes n => true
+  | RSkip n => ((0 <=? n) && (n <? 4611686018427387904))%Z
+  | _ => false
+  end.
+Fixpoint local_prog {A} (p : sprog A) : Prop :=
+  match p with
+  | SOp o k => local_op o = true /\ forall v, local_prog (k v)
+  | _ => True
+  end.
